@@ -10,6 +10,7 @@
    of instants. *)
 From Coq Require Import List ZArith Bool Lia.
 From Verif Require Import C20.Model C20.Proofs C20.Outcome C20.OutcomeProofs.
+From Verif Require Import C20.Settings C20.SettingsProofs.
 Import ListNotations.
 Open Scope Z_scope.
 
@@ -231,6 +232,170 @@ Theorem C20_carry_over_needs_a_hang : forall lim c t0 script,
   run_h (CarryOver lim) c init t0 script = run_h Wait c init t0 script.
 Proof. intros lim c t0 script F. exact (carry_over_wait_without_hang lim c script init t0 F). Qed.
 Print Assumptions C20_carry_over_needs_a_hang.
+
+(* ---- from the TEXT of the environment settings to the watcher (Settings.v):
+   the engine builds the watcher from four DIAGNOSIS_FAILSAFE_* texts, read as
+   strconv.Atoi reads them ([decode Decimal]).  [reads_decimal l z]: the text
+   [l] is an optional sign and decimal digits that say [z] (positional reading,
+   defined independently of the decoder).  The configured periods are what the
+   texts SAY; the watcher obeys them ---- *)
+
+(* the decoder returns the number the text says, a text says one number at
+   most, and within int64 the decoder does not fail *)
+Theorem C20_env_decode_is_decimal : forall l z,
+  reads_decimal l z ->
+  (forall z', decode Decimal l = Some z' -> z' = z) /\
+    (forall z', reads_decimal l z' -> z' = z) /\
+    (in_int64 z = true -> decode Decimal l = Some z).
+Proof.
+  intros l z R. split; [|split].
+  - intros z' D. exact (reads_decimal_decode l z z' R D).
+  - intros z' R'. exact (reads_decimal_fun l z' z R' R).
+  - exact (reads_decimal_decodes l z R).
+Qed.
+Print Assumptions C20_env_decode_is_decimal.
+
+(* if the engine gets a watcher at all, it is the watcher model run with the
+   numbers the four texts say (seconds for the three durations) *)
+Theorem C20_env_runs_configured : forall ts t0 script tr,
+  run_env Decimal ts t0 script = Some tr ->
+  exists c, tr = run c init t0 script /\
+    (forall x, reads_decimal (t_i ts) x -> cI c = x * second) /\
+    (forall x, reads_decimal (t_n ts) x -> cN c = x) /\
+    (forall x, reads_decimal (t_p ts) x -> cP c = x * second) /\
+    (forall x, reads_decimal (t_c ts) x -> cC c = x * second).
+Proof.
+  intros ts t0 script tr H.
+  destruct (run_env_some _ _ _ _ _ H) as (c & Hc & ->).
+  exists c. split; [reflexivity|]. exact (settings_of_decimal ts c Hc).
+Qed.
+Print Assumptions C20_env_runs_configured.
+
+Theorem C20_env_alternate : forall v ts t0 script tr,
+  run_env v ts t0 script = Some tr ->
+  alternates_from true (map fst (reactions tr)).
+Proof.
+  intros v ts t0 script tr H.
+  destruct (run_env_some _ _ _ _ _ H) as (c & _ & ->). apply C20_alternate.
+Qed.
+Print Assumptions C20_env_alternate.
+
+(* a reaction comes only after the new state was observed by >= max(N,2)
+   consecutive checks, N the count the text says, spanning at least the stable
+   period the text says: [p] seconds *)
+Definition env_stable_before_fire (v : reading) : Prop :=
+  forall ts t0 script tr n p pre e post,
+  run_env v ts t0 script = Some tr ->
+  reads_decimal (t_n ts) n -> reads_decimal (t_p ts) p ->
+  tr = pre ++ e :: post -> e_fire e = true ->
+  exists pre1 r f,
+    pre = pre1 ++ f :: r /\
+    Forall (fun x => e_obs x = e_obs e) (f :: r) /\
+    Z.max n 2 <= Z.of_nat (length (f :: r)) + 1 /\
+    p * second <= e_at e - e_at f.
+
+Theorem C20_env_stable_before_fire : env_stable_before_fire Decimal.
+Proof.
+  intros ts t0 script tr n p pre e post H Rn Rp Htr F.
+  destruct (C20_env_runs_configured _ _ _ _ H) as (c & Hrun & _ & Hn & Hp & _).
+  rewrite <- (Hn n Rn), <- (Hp p Rp).
+  apply (C20_stable_before_fire c t0 script pre e post); [congruence|exact F].
+Qed.
+Print Assumptions C20_env_stable_before_fire.
+
+(* after an 'unhealthy' reaction at t nothing is observed before t + the
+   cool-down the text says: [cd] seconds *)
+Definition env_cooldown_silent (v : reading) : Prop :=
+  forall ts t0 script tr cd pre e post,
+  Forall item_ok script ->
+  run_env v ts t0 script = Some tr ->
+  reads_decimal (t_c ts) cd ->
+  tr = pre ++ e :: post -> e_fire e = true -> e_obs e = false ->
+  Forall (fun e' => e_at e + Z.max (cd * second) 0 <= e_at e') post.
+
+Theorem C20_env_cooldown_silent : env_cooldown_silent Decimal.
+Proof.
+  intros ts t0 script tr cd pre e post Hok H Rc Htr F Ho.
+  destruct (C20_env_runs_configured _ _ _ _ H) as (c & Hrun & _ & _ & _ & Hc).
+  rewrite <- (Hc cd Rc).
+  apply (C20_cooldown_silent c t0 script pre e post Hok); [congruence|exact F|exact Ho].
+Qed.
+Print Assumptions C20_env_cooldown_silent.
+
+(* the variant that lets the prefix of the text choose the base
+   (strconv.ParseInt(s, 0, 64)): "010" seconds is read as 8.  Stable period
+   "010", checks every 4 s: 'unhealthy' fires at 8 s, no earlier check is 10 s old *)
+Definition C20_env_stable_before_fire_autodetect_full : Prop := env_stable_before_fire AutoDetect.
+Theorem C20_env_stable_before_fire_autodetect_full_refuted :
+  ~ C20_env_stable_before_fire_autodetect_full.
+Proof.
+  intros H.
+  destruct (H oct_stable_ts 0 oct_stable_script _ 2 10 [oct_e0; oct_e1] oct_e2 []
+              oct_stable_run
+              ltac:(exists [], false, [2]; repeat split;
+                    [constructor|discriminate|repeat constructor; unfold is_dec_digit; lia])
+              txt_010_says_10 eq_refl eq_refl)
+    as (pre1 & r & f & Hpre & _ & _ & Hp).
+  assert (Hin : In f [oct_e0; oct_e1]) by (rewrite Hpre; apply in_elt).
+  destruct Hin as [<-|[<-|[]]]; vm_compute in Hp; apply Hp; reflexivity.
+Qed.
+Print Assumptions C20_env_stable_before_fire_autodetect_full_refuted.
+
+(* cool-down "010": 'unhealthy' at 1 s, the next check at 10 s < 1 s + 10 s *)
+Definition C20_env_cooldown_silent_autodetect_full : Prop := env_cooldown_silent AutoDetect.
+Theorem C20_env_cooldown_silent_autodetect_full_refuted :
+  ~ C20_env_cooldown_silent_autodetect_full.
+Proof.
+  intros H.
+  pose proof (H oct_cool_ts 0 oct_cool_script _ 10 [oct_c0] oct_c1 [oct_c2]
+                oct_cool_script_ok oct_cool_run txt_010_says_10 eq_refl eq_refl eq_refl) as F.
+  inversion F as [|? ? Hle _]; subst. vm_compute in Hle. apply Hle; reflexivity.
+Qed.
+Print Assumptions C20_env_cooldown_silent_autodetect_full_refuted.
+
+(* the difference needs a setting written with a leading zero: on every other
+   text the variant is the code (why plain settings never show it) *)
+Theorem C20_env_autodetect_needs_a_leading_zero : forall ts t0 script,
+  no_leading_zero (t_i ts) -> no_leading_zero (t_p ts) -> no_leading_zero (t_c ts) ->
+  run_env AutoDetect ts t0 script = run_env Decimal ts t0 script.
+Proof.
+  intros ts t0 script Hi Hp Hc. unfold run_env.
+  rewrite (autodetect_settings ts Hi Hp Hc). reflexivity.
+Qed.
+Print Assumptions C20_env_autodetect_needs_a_leading_zero.
+
+(* ---- non-vacuity of the statements about setting texts ---- *)
+
+(* the shapes of a setting text: plain, zero-padded, signed are numbers; blanks,
+   a base prefix, an underscore, nothing, letters, out of range are errors (no
+   watcher); the base-detecting variant reads other numbers / accepts more *)
+Example C20_env_decode_shapes :
+  map (decode Decimal)
+      [[49;48]; [48;49;48]; [48;51;48;48]; [48;48;55]; [48;56]; [43;49;48]; [45;51]; [45;48];
+       [32;49;48]; [49;48;32]; [48;120;49;48]; [49;95;48]; []; [97;98;99]; [45]; [49;48;115];
+       [57;57;57;57;57;57;57;57;57;57;57;57;57;57;57;57;57;57;57;57]]
+  = [Some 10; Some 10; Some 300; Some 7; Some 8; Some 10; Some (-3); Some 0;
+     None; None; None; None; None; None; None; None; None] /\
+  map (decode AutoDetect) [[49;48]; [48;49;48]; [48;51;48;48]; [48;48;55]; [48;56]; [48;120;49;48]; [48]]
+  = [Some 10; Some 8; Some 192; Some 7; None; Some 16; Some 0].
+Proof. vm_compute. split; reflexivity. Qed.
+
+(* the hypotheses of the two statements are satisfiable: settings "1", "2",
+   "010", "0300" (interval, N, stable period, cool-down): the outage is reported
+   when it is 10 s old, the recovery only after the 300 s of the cool-down *)
+Example C20_env_fires_somewhere :
+  let ts := Texts [49] [50] [48;49;48] [48;51;48;48] in
+  let script := repeat (It false 0 0 0) 11 ++ repeat (It true 0 0 0) 12 in
+  reads_decimal (t_p ts) 10 /\ Forall item_ok script /\
+  option_map reactions (run_env Decimal ts 0 script)
+  = Some [(false, 10 * second); (true, 321 * second)] /\
+  option_map reactions (run_env AutoDetect ts 0 script)
+  = Some [(false, 8 * second); (true, 211 * second)] /\
+  run_env Decimal (Texts [49] [50] [32;49;48] [48]) 0 script = None.
+Proof.
+  split; [exact txt_010_says_10|]. split; [|vm_compute; repeat split; reflexivity].
+  repeat constructor; cbn; lia.
+Qed.
 
 (* ---- non-vacuity ---- *)
 
